@@ -169,8 +169,26 @@ def c15(ck):
     lines = []
     for i, (name, idle, stop, ini, mx, hist, exp) in enumerate(sc):
         lines.append("c%d listen_run %d %s %d %d %s | %s" % (i, idle, "none" if stop is None else stop, ini, mx, svc.tokens(), " ".join(hist)))
+    ntr = 8 if quick else 24
+    lines.append("race stoprace %d %s | %s" % (ntr, svc.tokens(), ok_req))
     res = run_lines(harness_bin("h_service"), lines, shards=len(lines), timeout=300,
                     env=dict(ENV, VH_TMP=os.path.join(BUILD, "tmp")))
+    # a connection made right after the stop flag was set (while the accept loop sits in its poll) is accepted by the
+    # loop as written and must then be served to completion before listen() returns. Trials in which the connection was
+    # late (load) or refused are inconclusive and dropped; the verdict needs at least four conclusive trials and fails
+    # only if fewer than half of them were served (a single trial can legitimately lose the race with the poll timeout).
+    rr = fields(res.get("race", ""))
+    ck.case("stoprace")
+    ck.count("stoprace_trials", ntr)
+    if "conclusive" in rr:
+        conc, srv = int(rr["conclusive"]), int(rr["served"])
+        ck.extra["stoprace"] = {"trials": ntr, "conclusive": conc, "served": srv}
+        if conc >= 4 and srv * 2 < conc:
+            ck.failures.append({"what": "listen() returned Ok although a connection made right after the stop flag was set (established before listen "
+                                        "returned) got no reply, in %d of %d conclusive trials" % (conc - srv, conc),
+                                "request_hex": ok_req, "per_trial (us after the flag / reply bytes)": rr.get("notes")})
+    else:
+        ck.tie_broken.append("stoprace run failed: " + res.get("race", "")[:200])
     for i, (name, idle, stop, ini, mx, hist, exp) in enumerate(sc):
         r = res["c%d" % i]
         ck.case(name, nontrivial=bool(hist) or stop is not None,
